@@ -7,6 +7,9 @@ Local Notation rget_ := (al_get slot_eqb).
 Local Notation rdel_ := (al_del slot_eqb).
 
 (* ---------- setters ---------- *)
+Ltac csplit := repeat match goal with |- _ /\ _ => split end.
+Ltac fin := try solve [ assumption | reflexivity | constructor; [simpl; tauto|constructor] | intros ? [<-|[]]; assumption
+                        | intros; discriminate | intros; congruence | intros; auto | tauto ].
 Ltac unsr := unfold set_pm, get_pm, set_tcp, set_udp, set_squat, set_res, set_grp, set_names, set_sess, res_rm in *; cbn [sr_tcp sr_udp sr_squat sr_res sr_grp sr_names sr_sess] in *.
 
 (* ---------- the keyed table ---------- *)
@@ -69,4 +72,888 @@ Proof.
       rewrite E. apply IH; try assumption.
       * intros k Hk. apply Hd. auto.
       * intros k Hk. destruct (Hc k Hk) as [E'|H]; [subst; contradiction|assumption].
+Qed.
+
+(* ---------- sockets and the probe ---------- *)
+Lemma sock_ports_get : forall proto p r, ~ In p (sock_ports proto r) -> rget_ (SSock proto p) r = None.
+Proof.
+  induction r as [|[k o] r IH]; simpl; intros H; [reflexivity|].
+  destruct k as [x y|kk rr|m|m]; simpl; try (apply IH; exact H).
+  destruct (Z.eqb_spec proto x) as [->|N].
+  - rewrite Z.eqb_refl in H. simpl in H.
+    destruct (Z.eqb_spec p y) as [->|N']; [tauto|]. simpl. apply IH. tauto.
+  - simpl. apply IH. destruct (Z.eqb_spec x proto); [congruence|assumption].
+Qed.
+
+Lemma get_sock_ports : forall proto p r, rget_ (SSock proto p) r <> None -> In p (sock_ports proto r).
+Proof.
+  intros proto p r H. destruct (in_dec Z.eq_dec p (sock_ports proto r)) as [I|N]; [assumption|].
+  exfalso. apply H. apply sock_ports_get. assumption.
+Qed.
+
+Lemma probe_free_sock : forall s proto p, sr_probe s proto p = true -> rget_ (SSock proto p) (sr_res s) = None.
+Proof.
+  intros s proto p H. unfold sr_probe, probe_of in H.
+  apply andb_prop in H. destruct H as [_ H]. apply negb_true_iff in H. apply zmem_false in H.
+  apply sock_ports_get. intros I. apply H. apply in_or_app. auto.
+Qed.
+
+Lemma probe_free_squat : forall s proto p, sr_probe s proto p = true -> ~ In (proto, p) (sr_squat s).
+Proof.
+  intros s proto p H I. unfold sr_probe, probe_of in H.
+  apply andb_prop in H. destruct H as [_ H]. apply negb_true_iff in H. apply zmem_false in H.
+  apply H. apply in_or_app. right. unfold squat_ports. apply in_map_iff. exists (proto, p). split; [reflexivity|].
+  apply filter_In. split; [assumption|]. simpl. apply Z.eqb_refl.
+Qed.
+
+(* ---------- port managers up to what Release cannot restore (order of the free table, reserved memory) ---------- *)
+Definition pm_eqv (a b : pm) : Prop :=
+  pm_used a = pm_used b /\ (forall p, In p (pm_free a) <-> In p (pm_free b)).
+
+Lemma pm_eqv_refl : forall a, pm_eqv a a.
+Proof. intros a. split; [reflexivity|tauto]. Qed.
+
+Lemma pm_eqv_trans : forall a b c, pm_eqv a b -> pm_eqv b c -> pm_eqv a c.
+Proof. intros a b c [U1 F1] [U2 F2]. split; [congruence|]. intros p. rewrite F1. apply F2. Qed.
+
+Lemma pm_eqv_sym : forall a b, pm_eqv a b -> pm_eqv b a.
+Proof. intros a b [U F]. split; [congruence|]. intros p. symmetry. apply F. Qed.
+
+Lemma udel_absent : forall p u, uget p u = None -> udel p u = u.
+Proof.
+  induction u as [|[q n] r IH]; simpl; intros H; [reflexivity|].
+  destruct (Z.eqb_spec p q); [discriminate|]. f_equal. auto.
+Qed.
+
+Lemma take_release_eqv : forall A m n p, PInv A m -> In p (pm_free m) -> pm_eqv m (pm_release (pm_take m n p) p).
+Proof.
+  intros A m n p HI Hf. unfold pm_release. cbn [pm_used pm_take]. rewrite uget_uset_eq.
+  split; cbn [pm_used pm_free pm_take].
+  - unfold uset. simpl. rewrite Z.eqb_refl.
+    assert (E : uget p (pm_used m) = None) by (apply (pi_disj _ _ HI); assumption).
+    rewrite udel_absent; [symmetry; apply udel_absent; assumption|].
+    rewrite udel_absent by assumption. assumption.
+  - intros q. rewrite zadd_In. rewrite zrem_In. destruct (Z.eq_dec q p) as [->|N]; tauto.
+Qed.
+
+Lemma pinv_eqv_no0 : forall A m, PInv A m -> ~ In 0 A -> ~ In 0 (pm_free m).
+Proof. intros. eapply pinv_no0; eauto. Qed.
+
+(* ---------- Acquire + Listen ---------- *)
+Definition same_but_res_pm (s s1 : sr) : Prop :=
+  sr_squat s1 = sr_squat s /\ sr_grp s1 = sr_grp s /\ sr_names s1 = sr_names s /\ sr_sess s1 = sr_sess s.
+
+Lemma acquire_listen_spec : forall A proto s name port ch lok o s1 r,
+  (proto = 0 \/ proto = 1) ->
+  PInv A (get_pm proto s) -> ~ In 0 A ->
+  acquire_listen proto s name port ch lok o = Some (s1, r) ->
+  same_but_res_pm s s1 /\ PInv A (get_pm proto s1) /\ get_pm (1 - proto) s1 = get_pm (1 - proto) s /\
+  match r with
+  | inl rp => rget_ (SSock proto rp) (sr_res s) = None /\ sr_res s1 = (SSock proto rp, o) :: sr_res s /\
+              get_pm proto s1 = pm_take (get_pm proto s) name rp /\ In rp (pm_free (get_pm proto s)) /\
+              ~ In (proto, rp) (sr_squat s) /\ lok = true /\ (port <> 0 -> rp = port)
+  | inr e => sr_res s1 = sr_res s /\ pm_eqv (get_pm proto s) (get_pm proto s1)
+  end.
+Proof.
+  intros A proto s name port ch lok o s1 r Hp HI H0 H. unfold acquire_listen in H. unfold same_but_res_pm.
+  destruct (pm_acquire (sr_probe s proto) ch (get_pm proto s) name port) as [[m' [rp|e]]|] eqn:E; [| |discriminate].
+  - destruct (acquire_sound _ _ _ _ _ _ _ _ HI E) as [HA [Hf [Hnu [Hpr [Hport [Hm' _]]]]]].
+    pose proof (probe_free_sock _ _ _ Hpr) as Hs.
+    destruct lok.
+    + unfold res_add in H.
+      assert (Hs' : res_get (SSock proto rp) (sr_res (set_pm proto m' s)) = None).
+      { destruct Hp as [-> | ->]; unfold set_pm, get_pm in *; cbn in *; exact Hs. }
+      rewrite Hs' in H. inversion H; subst; clear H.
+      destruct Hp as [-> | ->]; unfold set_pm, get_pm in *; cbn in *; (csplit; auto; try (apply pinv_take; assumption));
+        try (apply (probe_free_squat _ _ _ Hpr)).
+    + inversion H; subst; clear H.
+      assert (PInv A (pm_take (get_pm proto s) name rp)) by (apply pinv_take; assumption).
+      destruct Hp as [-> | ->]; unfold set_pm, get_pm in *; cbn in *; (csplit; auto; try (apply pinv_release; assumption);
+        try (apply (take_release_eqv A); assumption)).
+  - inversion H; subst; clear H.
+    assert (m' = get_pm proto s).
+    { eapply acquire_error_unchanged_no0; [|eassumption]. eapply pinv_no0; eauto. }
+    subst m'. destruct Hp as [-> | ->]; unfold set_pm, get_pm in *; cbn in *; destruct s; cbn in *; (csplit; auto; try apply pm_eqv_refl).
+Qed.
+
+(* ---------- the registration loop of the vhost-type proxies, no group ---------- *)
+Lemma NoDup_snoc : forall (A : Type) (l : list A) a, NoDup l -> ~ In a l -> NoDup (l ++ [a]).
+Proof.
+  induction l as [|b l IH]; simpl; intros a ND H; [constructor; [tauto|constructor]|].
+  inversion ND as [|? ? Hn Hr]; subst. constructor.
+  - rewrite in_app_iff. simpl. intros [I|[E|[]]]; [tauto|subst; tauto].
+  - apply IH; tauto.
+Qed.
+
+Lemma routes_run_free : forall t q, q_group q = ""%string ->
+  forall ks done s r0 s1 r,
+  sr_res s = claim (q_name q) (rev done) ++ r0 -> NoDup done -> (forall k, In k done -> rget_ k r0 = None) ->
+  routes_run t q ks done s = (s1, r) ->
+  match r with
+  | inl all => s1 = set_res (claim (q_name q) (rev all) ++ r0) s /\ NoDup all /\ (forall k, In k all -> rget_ k r0 = None) /\
+               all = done ++ map (SRoute (rkind_of t)) ks
+  | inr e => s1 = set_res r0 s /\ e = EConflict
+  end.
+Proof.
+  intros t q G ks. induction ks as [|rk ks IH]; intros done s r0 s1 r Hres ND Habs H.
+  - simpl in H. injection H as <- <-. split; [|split; [assumption|split; [assumption|]]].
+    + rewrite <- Hres. destruct s; reflexivity.
+    + rewrite app_nil_r. reflexivity.
+  - cbn [routes_run] in H. rewrite G in H. cbn [String.eqb] in H.
+    set (k := SRoute (rkind_of t) rk) in *.
+    unfold res_add in H. destruct (res_get k (sr_res s)) as [ow|] eqn:E.
+    + (* conflict: release what was registered *)
+      inversion H; subst; clear H. split; [|reflexivity].
+      assert (F : forall l st, fold_left (fun acc k' => route_release t ""%string (q_name q) k' acc) l st
+                               = set_res (fold_left (fun acc k' => rdel_ k' acc) l (sr_res st)) st).
+      { induction l as [|a l IHl]; intros st; simpl; [destruct st; reflexivity|].
+        rewrite IHl. unfold route_release. cbn [String.eqb]. unsr. reflexivity. }
+      rewrite F. rewrite Hres. f_equal.
+      apply res_del_all_claim.
+      * intros x Hx. apply Habs. apply in_rev. assumption.
+      * apply NoDup_rev. assumption.
+      * intros x Hx. left. apply -> in_rev. assumption.
+      * intros x Hx. apply in_rev. assumption.
+    + assert (Hk : ~ In k done).
+      { intros I. unfold res_get in E. rewrite Hres in E. rewrite res_get_app_claim_in in E; [discriminate|]. apply -> in_rev. assumption. }
+      assert (Hk0 : rget_ k r0 = None).
+      { unfold res_get in E. rewrite Hres in E. rewrite res_get_app_claim_notin in E; [assumption|]. intros I. apply Hk. apply in_rev. assumption. }
+      specialize (IH (done ++ [k]) (set_res ((k, OPxy (q_name q)) :: sr_res s) s) r0 s1 r).
+      assert (R1 : sr_res (set_res ((k, OPxy (q_name q)) :: sr_res s) s) = claim (q_name q) (rev (done ++ [k])) ++ r0).
+      { unsr. rewrite rev_app_distr. simpl. rewrite Hres. reflexivity. }
+      assert (ND1 : NoDup (done ++ [k])) by (apply NoDup_snoc; assumption).
+      assert (A1 : forall x, In x (done ++ [k]) -> rget_ x r0 = None).
+      { intros x Hx. apply in_app_iff in Hx. destruct Hx as [Hx|[<-|[]]]; auto. }
+      specialize (IH R1 ND1 A1 H). destruct r as [all|e].
+      * destruct IH as [I1 [I2 [I3 I4]]]. split; [|split; [assumption|split; [assumption|]]].
+        -- rewrite I1. destruct s; reflexivity.
+        -- rewrite I4. rewrite <- app_assoc. reflexivity.
+      * destruct IH as [I1 I2]. split; [|assumption]. rewrite I1. destruct s; reflexivity.
+Qed.
+
+(* ---------- proxy objects ---------- *)
+Definition slots_kind (o : pobj) : Prop :=
+  match po_type o with
+  | TTcp => po_slots o = [SSock 0 (po_real o)]
+  | TUdp => po_slots o = [SSock 1 (po_real o)]
+  | TStcp | TSudp => po_slots o = [SVis (po_name o)]
+  | TXtcp => po_slots o = [SNat (po_name o)]
+  | THttp | THttps | TTcpmux => forall k, In k (po_slots o) -> exists r, k = SRoute (rkind_of (po_type o)) r
+  end.
+
+Definition obj_ok (n : string) (o : pobj) : Prop :=
+  po_name o = n /\ po_group o = ""%string /\ po_w o = weight (po_type o) /\ slots_kind o.
+
+Definition pm_effect (s s1 : sr) (n : string) (o : pobj) : Prop :=
+  match po_type o with
+  | TTcp => sr_tcp s1 = pm_take (sr_tcp s) n (po_real o) /\ In (po_real o) (pm_free (sr_tcp s)) /\ sr_udp s1 = sr_udp s /\
+            ~ In (0, po_real o) (sr_squat s)
+  | TUdp => sr_udp s1 = pm_take (sr_udp s) n (po_real o) /\ In (po_real o) (pm_free (sr_udp s)) /\ sr_tcp s1 = sr_tcp s /\
+            ~ In (1, po_real o) (sr_squat s)
+  | _ => sr_tcp s1 = sr_tcp s /\ sr_udp s1 = sr_udp s
+  end.
+
+Lemma px_run_spec : forall A s q s1 r,
+  q_group q = ""%string -> PInv A (sr_tcp s) -> PInv A (sr_udp s) -> ~ In 0 A ->
+  px_run s q = Some (s1, r) ->
+  same_but_res_pm s s1 /\ PInv A (sr_tcp s1) /\ PInv A (sr_udp s1) /\
+  match r with
+  | inl o => obj_ok (q_name q) o /\ po_type o = q_type q /\ NoDup (po_slots o) /\
+             (forall k, In k (po_slots o) -> rget_ k (sr_res s) = None) /\
+             sr_res s1 = claim (q_name q) (rev (po_slots o)) ++ sr_res s /\ pm_effect s s1 (q_name q) o /\
+             (q_lok q = true \/ weight (q_type q) = 0) /\ (q_port q <> 0 -> weight (q_type q) = 1 -> po_real o = q_port q)
+  | inr e => sr_res s1 = sr_res s /\ pm_eqv (sr_tcp s) (sr_tcp s1) /\ pm_eqv (sr_udp s) (sr_udp s1)
+  end.
+Proof.
+  intros A s q s1 r G Ht Hu H0 H. unfold px_run in H.
+  assert (VH : forall t, (t = THttp \/ t = THttps \/ t = TTcpmux) -> forall q' ks s1 r, q_group q' = ""%string -> q_name q' = q_name q ->
+            routes_run t q' ks [] s = (s1, r) ->
+            same_but_res_pm s s1 /\ PInv A (sr_tcp s1) /\ PInv A (sr_udp s1) /\
+            match r with
+            | inl all => NoDup all /\ (forall k, In k all -> rget_ k (sr_res s) = None) /\
+                         sr_res s1 = claim (q_name q) (rev all) ++ sr_res s /\ sr_tcp s1 = sr_tcp s /\ sr_udp s1 = sr_udp s /\
+                         (forall k, In k all -> exists rr, k = SRoute (rkind_of t) rr)
+            | inr e => sr_res s1 = sr_res s /\ pm_eqv (sr_tcp s) (sr_tcp s1) /\ pm_eqv (sr_udp s) (sr_udp s1)
+            end).
+  { intros t Ht' q' ks s1' r' G' N' R.
+    pose proof (routes_run_free t q' G' ks [] s (sr_res s) s1' r') as P. simpl in P.
+    specialize (P eq_refl (NoDup_nil _) (fun k F => match F with end) R).
+    destruct r' as [all|e].
+    - destruct P as [P1 [P2 [P3 P4]]]. subst s1'. unfold same_but_res_pm. unsr. rewrite N'.
+      csplit; auto. intros k Hk. rewrite P4 in Hk. simpl in Hk. apply in_map_iff in Hk. destruct Hk as [rr [<- _]]. eauto.
+    - destruct P as [P1 P2]. subst s1'. unfold same_but_res_pm. unsr. csplit; auto; apply pm_eqv_refl. }
+  destruct (q_type q) eqn:T.
+  - (* tcp *)
+    rewrite G in H. cbn [String.eqb] in H.
+    destruct (acquire_listen 0 s (q_name q) (q_port q) (q_choice q) (q_lok q) (OPxy (q_name q))) as [[s' [rp|e]]|] eqn:E; [| |discriminate];
+      injection H as <- <-;
+      destruct (acquire_listen_spec A 0 s _ _ _ _ _ _ _ (or_introl eq_refl) Ht H0 E) as [S [P1 [P2 P3]]];
+      unfold get_pm in *; cbn in P1, P2, P3.
+    + destruct P3 as [Q1 [Q2 [Q3 [Q4 [Q5 [Q6 Q7]]]]]].
+      unfold obj_ok, slots_kind, pm_effect, mk_obj; cbn; rewrite ?T; cbn; csplit; auto; try (rewrite P2; assumption); fin.
+    + destruct P3 as [Q1 Q2]. csplit; auto; try (rewrite P2; assumption). rewrite P2. apply pm_eqv_refl.
+  - (* udp *)
+    destruct (acquire_listen 1 s (q_name q) (q_port q) (q_choice q) (q_lok q) (OPxy (q_name q))) as [[s' [rp|e]]|] eqn:E; [| |discriminate];
+      injection H as <- <-;
+      destruct (acquire_listen_spec A 1 s _ _ _ _ _ _ _ (or_intror eq_refl) Hu H0 E) as [S [P1 [P2 P3]]];
+      unfold get_pm in *; cbn in P1, P2, P3.
+    + destruct P3 as [Q1 [Q2 [Q3 [Q4 [Q5 [Q6 Q7]]]]]].
+      unfold obj_ok, slots_kind, pm_effect, mk_obj; cbn; rewrite ?T; cbn; csplit; auto; try (rewrite P2; assumption); fin.
+    + destruct P3 as [Q1 Q2]. csplit; auto; try (rewrite P2; assumption). rewrite P2. apply pm_eqv_refl.
+  - (* http *)
+    destruct (routes_run THttp q (http_rkeys q) [] s) as [s' [all|e]] eqn:E; injection H as <- <-;
+      destruct (VH THttp (or_introl eq_refl) q _ _ _ G eq_refl E) as [S [P1 [P2 P3]]].
+    + destruct P3 as [Q1 [Q2 [Q3 [Q4 [Q5 Q6]]]]].
+      unfold obj_ok, slots_kind, pm_effect, mk_obj; cbn; rewrite ?T; cbn; csplit; auto; fin.
+    + destruct P3 as [Q1 [Q2 Q3]]; csplit; auto.
+  - (* https *)
+    match type of H with context [routes_run THttps ?q' _ _ _] => set (qq := q') in * end.
+    destruct (routes_run THttps qq (https_rkeys q) [] s) as [s' [all|e]] eqn:E; injection H as <- <-;
+      destruct (VH THttps (or_intror (or_introl eq_refl)) qq _ _ _ eq_refl eq_refl E) as [S [P1 [P2 P3]]].
+    + destruct P3 as [Q1 [Q2 [Q3 [Q4 [Q5 Q6]]]]].
+      unfold obj_ok, slots_kind, pm_effect, mk_obj; cbn; rewrite ?T; cbn; csplit; auto; fin.
+    + destruct P3 as [Q1 [Q2 Q3]]; csplit; auto.
+  - (* tcpmux *)
+    destruct (routes_run TTcpmux q (mux_rkeys q) [] s) as [s' [all|e]] eqn:E; injection H as <- <-;
+      destruct (VH TTcpmux (or_intror (or_intror eq_refl)) q _ _ _ G eq_refl E) as [S [P1 [P2 P3]]].
+    + destruct P3 as [Q1 [Q2 [Q3 [Q4 [Q5 Q6]]]]].
+      unfold obj_ok, slots_kind, pm_effect, mk_obj; cbn; rewrite ?T; cbn; csplit; auto; fin.
+    + destruct P3 as [Q1 [Q2 Q3]]; csplit; auto.
+  - (* stcp *)
+    unfold res_add in H. destruct (res_get (SVis (q_name q)) (sr_res s)) eqn:E; injection H as <- <-.
+    + unfold same_but_res_pm. csplit; auto; apply pm_eqv_refl.
+    + unfold same_but_res_pm, obj_ok, slots_kind, pm_effect. unsr. cbn. csplit; auto; fin.
+  - (* sudp *)
+    unfold res_add in H. destruct (res_get (SVis (q_name q)) (sr_res s)) eqn:E; injection H as <- <-.
+    + unfold same_but_res_pm. csplit; auto; apply pm_eqv_refl.
+    + unfold same_but_res_pm, obj_ok, slots_kind, pm_effect. unsr. cbn. csplit; auto; fin.
+  - (* xtcp *)
+    unfold res_add in H. destruct (res_get (SNat (q_name q)) (sr_res s)) eqn:E; injection H as <- <-.
+    + unfold same_but_res_pm. csplit; auto; apply pm_eqv_refl.
+    + unfold same_but_res_pm, obj_ok, slots_kind, pm_effect. unsr. cbn. csplit; auto; fin.
+Qed.
+
+Lemma fold_route_release_free : forall t n l st,
+  fold_left (fun acc k' => route_release t ""%string n k' acc) l st
+  = set_res (fold_left (fun acc k' => rdel_ k' acc) l (sr_res st)) st.
+Proof.
+  induction l as [|a l IHl]; intros st; simpl; [destruct st; reflexivity|].
+  rewrite IHl. unfold route_release. cbn [String.eqb]. unsr. reflexivity.
+Qed.
+
+Definition is_tcp (t : ptype) : bool := match t with TTcp => true | _ => false end.
+Definition is_udp (t : ptype) : bool := match t with TUdp => true | _ => false end.
+
+Lemma px_close_spec : forall s n o, obj_ok n o ->
+  sr_res (px_close s o) = fold_left (fun acc k => rdel_ k acc) (po_slots o) (sr_res s) /\
+  same_but_res_pm s (px_close s o) /\
+  sr_tcp (px_close s o) = (if is_tcp (po_type o) then pm_release (sr_tcp s) (po_real o) else sr_tcp s) /\
+  sr_udp (px_close s o) = (if is_udp (po_type o) then pm_release (sr_udp s) (po_real o) else sr_udp s).
+Proof.
+  intros s n o [N [G [W K]]]. unfold px_close, slots_kind, same_but_res_pm in *.
+  destruct (po_type o) eqn:T; cbn [is_tcp is_udp]; rewrite ?G; cbn [String.eqb];
+    try (rewrite fold_route_release_free; unsr; csplit; reflexivity);
+    try (rewrite K; unfold close_release, res_rm, set_pm, get_pm; cbn; csplit; reflexivity).
+Qed.
+
+(* ---------- deleting a list of keys ---------- *)
+Definition rdel_all (ds : list slot) (r : list (slot * owner)) := fold_left (fun acc k => rdel_ k acc) ds r.
+
+Lemma rdel_all_in : forall ds r k ow, In (k, ow) (rdel_all ds r) <-> In (k, ow) r /\ ~ In k ds.
+Proof.
+  unfold rdel_all. induction ds as [|d ds IH]; intros r k ow; simpl; [tauto|].
+  rewrite IH. rewrite (al_in_del slot_eqb_spec). split; [intros [[H1 H2] H3]|intros [H1 H2]]; repeat split; auto.
+  - intros [E|I]; [congruence|tauto].
+Qed.
+
+Lemma rdel_all_get : forall ds r k, ~ In k ds -> rget_ k (rdel_all ds r) = rget_ k r.
+Proof.
+  unfold rdel_all. induction ds as [|d ds IH]; intros r k H; simpl; [reflexivity|].
+  rewrite IH by (simpl in H; tauto). apply (al_get_del_neq slot_eqb_spec). simpl in H. intros E. apply H. auto.
+Qed.
+
+Lemma rdel_all_get_none : forall ds r k, rget_ k r = None -> rget_ k (rdel_all ds r) = None.
+Proof.
+  unfold rdel_all. induction ds as [|d ds IH]; intros r k H; simpl; [assumption|].
+  apply IH. destruct (slot_eqb_spec k d) as [->|N]; [apply (al_get_del_eq slot_eqb_spec)|].
+  rewrite (al_get_del_neq slot_eqb_spec) by assumption. assumption.
+Qed.
+
+Lemma rdel_all_get_in : forall ds r k, In k ds -> rget_ k (rdel_all ds r) = None.
+Proof.
+  unfold rdel_all. induction ds as [|d ds IH]; intros r k H; simpl; [contradiction|].
+  destruct (slot_eqb_spec k d) as [->|N].
+  - apply rdel_all_get_none. apply (al_get_del_eq slot_eqb_spec).
+  - apply IH. destruct H; [congruence|assumption].
+Qed.
+
+Lemma rdel_all_nodup : forall ds r, NoDup (map fst r) -> NoDup (map fst (rdel_all ds r)).
+Proof.
+  unfold rdel_all. induction ds as [|d ds IH]; intros r H; simpl; [assumption|].
+  apply IH. apply (al_del_nodup slot_eqb_spec). assumption.
+Qed.
+
+Lemma claim_keys : forall n ks, map fst (claim n ks) = ks.
+Proof. induction ks as [|a ks IH]; simpl; [reflexivity|f_equal; assumption]. Qed.
+
+Lemma claim_nodup : forall n ks r, NoDup ks -> (forall k, In k ks -> rget_ k r = None) -> NoDup (map fst r) ->
+  NoDup (map fst (claim n ks ++ r)).
+Proof.
+  induction ks as [|a ks IH]; simpl; intros r ND A Hr; [assumption|].
+  inversion ND as [|? ? Hn Hd]; subst. constructor.
+  - rewrite map_app, claim_keys. rewrite in_app_iff. intros [I|I]; [tauto|].
+    apply (al_get_none_notin slot_eqb_spec) in I; [assumption|]. apply A. auto.
+  - apply IH; auto.
+Qed.
+
+Lemma in_claim : forall n ks k ow, In (k, ow) (claim n ks) <-> ow = OPxy n /\ In k ks.
+Proof.
+  induction ks as [|a ks IH]; simpl; intros k ow; [tauto|].
+  rewrite IH. split; [intros [E|[H1 H2]]; [inversion E; subst; auto|auto]|intros [-> [->|H]]; auto].
+Qed.
+
+(* ---------- the invariant (histories without load-balancing groups) ---------- *)
+Definition live (s : sr) (n : string) (o : pobj) : Prop :=
+  exists c ct, ss_get c (sr_sess s) = Some ct /\ nm_get n (ss_pxys ct) = Some o.
+
+Record WF (A : list Z) (s : sr) : Prop := {
+  wf_nogrp : sr_grp s = [];
+  wf_tcp : PInv A (sr_tcp s);
+  wf_udp : PInv A (sr_udp s);
+  wf_keys : NoDup (map fst (sr_res s));
+  wf_held : forall k ow, In (k, ow) (sr_res s) -> exists n o, ow = OPxy n /\ live s n o /\ In k (po_slots o);
+  wf_pres : forall n o k, live s n o -> In k (po_slots o) -> rget_ k (sr_res s) = Some (OPxy n);
+  wf_obj : forall n o, live s n o -> obj_ok n o;
+  wf_n1 : forall c ct n o, ss_get c (sr_sess s) = Some ct -> nm_get n (ss_pxys ct) = Some o -> nm_get n (sr_names s) = Some c;
+  wf_n2 : forall n c, nm_get n (sr_names s) = Some c -> exists ct o, ss_get c (sr_sess s) = Some ct /\ nm_get n (ss_pxys ct) = Some o;
+  wf_pk : forall c ct, ss_get c (sr_sess s) = Some ct -> NoDup (map fst (ss_pxys ct));
+  wf_ptag : forall proto p n, (proto = 0 \/ proto = 1) -> uget p (pm_used (get_pm proto s)) = Some n ->
+            rget_ (SSock proto p) (sr_res s) = Some (OPxy n);
+  wf_squat : forall proto p, In (proto, p) (sr_squat s) -> rget_ (SSock proto p) (sr_res s) = None
+}.
+
+Lemma wf_new : forall ranges, WF (pm_allowed ranges) (sr_new ranges).
+Proof.
+  intros ranges. constructor; cbn.
+  - reflexivity.
+  - apply pinv_new.
+  - apply pinv_new.
+  - constructor.
+  - intros ? ? [].
+  - intros ? ? ? [c [ct [HH _]]]. discriminate.
+  - intros ? ? [c [ct [HH _]]]. discriminate.
+  - intros; discriminate.
+  - intros; discriminate.
+  - intros; discriminate.
+  - intros proto p ? [-> | ->]; cbn; discriminate.
+  - intros ? ? [].
+Qed.
+
+Lemma live_fun : forall A s n o1 o2, WF A s -> live s n o1 -> live s n o2 -> o1 = o2.
+Proof.
+  intros A s n o1 o2 W [c1 [ct1 [S1 P1]]] [c2 [ct2 [S2 P2]]].
+  pose proof (wf_n1 _ _ W _ _ _ _ S1 P1) as N1. pose proof (wf_n1 _ _ W _ _ _ _ S2 P2) as N2.
+  assert (c1 = c2) by congruence. subst. assert (ct1 = ct2) by congruence. subst. congruence.
+Qed.
+
+Lemma live_named : forall A s n o, WF A s -> live s n o -> nm_get n (sr_names s) <> None.
+Proof. intros A s n o W [c [ct [S P]]]. rewrite (wf_n1 _ _ W _ _ _ _ S P). discriminate. Qed.
+
+(* no resource entry without a live holder: the keyed tables, the sockets and both port tables *)
+Lemma wf_port_holder : forall A s proto p n, WF A s -> (proto = 0 \/ proto = 1) ->
+  uget p (pm_used (get_pm proto s)) = Some n ->
+  exists o, live s n o /\ In (SSock proto p) (po_slots o).
+Proof.
+  intros A s proto p n W Hp U.
+  pose proof (wf_ptag _ _ W _ _ _ Hp U) as R. apply (al_get_in slot_eqb_spec) in R.
+  destruct (wf_held _ _ W _ _ R) as [n' [o [E [L I]]]]. inversion E; subst. eauto.
+Qed.
+
+Local Notation sget_ := (al_get Z.eqb).
+Local Notation nget_ := (al_get String.eqb).
+
+Lemma ss_get_set_eq : forall V c (v : V) l, ss_get c (ss_set c v l) = Some v.
+Proof. intros. apply (al_get_set_eq Z.eqb_spec). Qed.
+Lemma ss_get_set_neq : forall V c c' (v : V) l, c' <> c -> ss_get c' (ss_set c v l) = ss_get c' l.
+Proof. intros. apply (al_get_set_neq Z.eqb_spec). assumption. Qed.
+Lemma nm_get_del_eq : forall V n (l : list (string * V)), nm_get n (nm_del n l) = None.
+Proof. intros. apply (al_get_del_eq String.eqb_spec). Qed.
+Lemma nm_get_del_neq : forall V n n' (l : list (string * V)), n' <> n -> nm_get n' (nm_del n l) = nm_get n' l.
+Proof. intros. apply (al_get_del_neq String.eqb_spec). assumption. Qed.
+Lemma nm_get_set_eq : forall V n (v : V) l, nm_get n (nm_set n v l) = Some v.
+Proof. intros. apply (al_get_set_eq String.eqb_spec). Qed.
+Lemma nm_get_set_neq : forall V n n' (v : V) l, n' <> n -> nm_get n' (nm_set n v l) = nm_get n' l.
+Proof. intros. apply (al_get_set_neq String.eqb_spec). assumption. Qed.
+
+(* ---------- CloseProxy ---------- *)
+Lemma wf_close_core : forall A s c ct name o u s',
+  WF A s -> ss_get c (sr_sess s) = Some ct -> nm_get name (ss_pxys ct) = Some o ->
+  sr_grp s' = [] ->
+  sr_tcp s' = (if is_tcp (po_type o) then pm_release (sr_tcp s) (po_real o) else sr_tcp s) ->
+  sr_udp s' = (if is_udp (po_type o) then pm_release (sr_udp s) (po_real o) else sr_udp s) ->
+  sr_squat s' = sr_squat s ->
+  sr_res s' = rdel_all (po_slots o) (sr_res s) ->
+  sr_names s' = nm_del name (sr_names s) ->
+  sr_sess s' = ss_set c (sess_with ct (nm_del name (ss_pxys ct)) u) (sr_sess s) ->
+  WF A s'.
+Proof.
+  intros A s c ct name o u s' W SC PC Eg Et Eu Eq Er En Es.
+  assert (L0 : live s name o) by (exists c, ct; auto).
+  pose proof (wf_obj _ _ W _ _ L0) as [ON [OG [OW OK]]].
+  pose proof (wf_n1 _ _ W _ _ _ _ SC PC) as NC.
+  assert (LL : forall n' o', live s' n' o' <-> live s n' o' /\ n' <> name).
+  { intros n' o'. unfold live. rewrite Es. split.
+    - intros [c' [ct' [S' P']]]. destruct (Z.eq_dec c' c) as [->|Nc].
+      + rewrite ss_get_set_eq in S'. injection S' as <-. cbn [ss_pxys sess_with] in P'.
+        destruct (String.eqb_spec n' name) as [->|Nn]; [rewrite nm_get_del_eq in P'; discriminate|].
+        rewrite nm_get_del_neq in P' by assumption. split; [exists c, ct; auto|assumption].
+      + rewrite ss_get_set_neq in S' by assumption. split; [exists c', ct'; auto|].
+        intros ->. pose proof (wf_n1 _ _ W _ _ _ _ S' P'). congruence.
+    - intros [[c' [ct' [S' P']]] Nn]. destruct (Z.eq_dec c' c) as [->|Nc].
+      + assert (ct' = ct) by congruence. subst ct'. exists c. eexists. rewrite ss_get_set_eq. split; [reflexivity|].
+        cbn [ss_pxys sess_with]. rewrite nm_get_del_neq by assumption. assumption.
+      + exists c', ct'. rewrite ss_get_set_neq by assumption. auto. }
+  assert (SK : forall k, In k (po_slots o) -> forall proto p, k = SSock proto p -> (proto = 0 /\ is_tcp (po_type o) = true /\ p = po_real o) \/ (proto = 1 /\ is_udp (po_type o) = true /\ p = po_real o)).
+  { intros k Hk proto p ->. unfold slots_kind in OK. destruct (po_type o) eqn:T; cbn.
+    all: try (rewrite OK in Hk; destruct Hk as [E|[]]; try discriminate E; injection E as <- <-; auto).
+    all: try (destruct (OK _ Hk) as [rr E]; discriminate E). }
+  constructor.
+  - assumption.
+  - rewrite Et. destruct (is_tcp (po_type o)); [apply pinv_release|]; apply (wf_tcp _ _ W).
+  - rewrite Eu. destruct (is_udp (po_type o)); [apply pinv_release|]; apply (wf_udp _ _ W).
+  - rewrite Er. apply rdel_all_nodup. apply (wf_keys _ _ W).
+  - intros k ow H. rewrite Er in H. apply rdel_all_in in H. destruct H as [H Hn].
+    destruct (wf_held _ _ W _ _ H) as [n' [o' [E [L I]]]]. exists n', o'. split; [assumption|]. split; [|assumption].
+    apply LL. split; [assumption|]. intros ->. rewrite (live_fun _ _ _ _ _ W L L0) in I. contradiction.
+  - intros n' o' k L I. apply LL in L. destruct L as [L Nn]. rewrite Er.
+    rewrite rdel_all_get; [apply (wf_pres _ _ W _ _ _ L I)|].
+    intros I0. pose proof (wf_pres _ _ W _ _ _ L I) as R1. pose proof (wf_pres _ _ W _ _ _ L0 I0) as R2. congruence.
+  - intros n' o' L. apply LL in L. apply (wf_obj _ _ W). tauto.
+  - intros c' ct' n' o' S' P'. rewrite En.
+    assert (L : live s' n' o') by (exists c', ct'; auto). apply LL in L. destruct L as [[c2 [ct2 [S2 P2]]] Nn].
+    rewrite nm_get_del_neq by assumption.
+    rewrite Es in S'. destruct (Z.eq_dec c' c) as [->|Nc].
+    + rewrite ss_get_set_eq in S'. injection S' as <-. cbn [ss_pxys sess_with] in P'.
+      rewrite nm_get_del_neq in P' by assumption. apply (wf_n1 _ _ W _ _ _ _ SC P').
+    + rewrite ss_get_set_neq in S' by assumption. apply (wf_n1 _ _ W _ _ _ _ S' P').
+  - intros n' c' H. rewrite En in H.
+    destruct (String.eqb_spec n' name) as [->|Nn]; [rewrite nm_get_del_eq in H; discriminate|].
+    rewrite nm_get_del_neq in H by assumption.
+    destruct (wf_n2 _ _ W _ _ H) as [ct' [o' [S' P']]]. rewrite Es.
+    destruct (Z.eq_dec c' c) as [->|Nc].
+    + assert (ct' = ct) by congruence. subst ct'. eexists. exists o'. rewrite ss_get_set_eq. split; [reflexivity|].
+      cbn [ss_pxys sess_with]. rewrite nm_get_del_neq by assumption. assumption.
+    + exists ct', o'. rewrite ss_get_set_neq by assumption. auto.
+  - intros c' ct' S'. rewrite Es in S'. destruct (Z.eq_dec c' c) as [->|Nc].
+    + rewrite ss_get_set_eq in S'. injection S' as <-. cbn [ss_pxys sess_with].
+      apply (al_del_nodup String.eqb_spec). apply (wf_pk _ _ W _ _ SC).
+    + rewrite ss_get_set_neq in S' by assumption. apply (wf_pk _ _ W _ _ S').
+  - intros proto p n' Hp U. rewrite Er.
+    assert (U0 : uget p (pm_used (get_pm proto s)) = Some n' /\ ~ (In (SSock proto p) (po_slots o))).
+    { destruct Hp as [-> | ->]; unfold get_pm in *; cbn [Z.eqb] in *.
+      - rewrite Et in U. destruct (is_tcp (po_type o)) eqn:IT.
+        + unfold pm_release in U. destruct (uget (po_real o) (pm_used (sr_tcp s))) eqn:UR.
+          * cbn [pm_used] in U. destruct (Z.eq_dec p (po_real o)) as [->|Np]; [rewrite uget_udel_eq in U; discriminate|].
+            rewrite uget_udel_neq in U by assumption. split; [assumption|]. intros I.
+            destruct (SK _ I 0 p eq_refl) as [[_ [_ E]]|[E _]]; [contradiction|discriminate].
+          * split; [assumption|]. intros I. destruct (SK _ I 0 p eq_refl) as [[_ [_ E]]|[E _]]; [|discriminate]. congruence.
+        + split; [assumption|]. intros I. destruct (SK _ I 0 p eq_refl) as [[_ [E _]]|[E _]]; [congruence|discriminate].
+      - rewrite Eu in U. destruct (is_udp (po_type o)) eqn:IT.
+        + unfold pm_release in U. destruct (uget (po_real o) (pm_used (sr_udp s))) eqn:UR.
+          * cbn [pm_used] in U. destruct (Z.eq_dec p (po_real o)) as [->|Np]; [rewrite uget_udel_eq in U; discriminate|].
+            rewrite uget_udel_neq in U by assumption. split; [assumption|]. intros I.
+            destruct (SK _ I 1 p eq_refl) as [[E _]|[_ [_ E]]]; [discriminate|contradiction].
+          * split; [assumption|]. intros I. destruct (SK _ I 1 p eq_refl) as [[E _]|[_ [_ E]]]; [discriminate|]. congruence.
+        + split; [assumption|]. intros I. destruct (SK _ I 1 p eq_refl) as [[E _]|[_ [E _]]]; [discriminate|congruence]. }
+    destruct U0 as [U0 NI]. rewrite rdel_all_get by assumption. apply (wf_ptag _ _ W _ _ _ Hp U0).
+  - intros proto p H. rewrite Eq in H. rewrite Er. apply rdel_all_get_none. apply (wf_squat _ _ W _ _ H).
+Qed.
+
+Lemma y_close_wf : forall A maxp s c name s', WF A s -> y_close maxp s c name = Some s' -> WF A s'.
+Proof.
+  intros A maxp s c name s' W H. unfold y_close in H.
+  destruct (ss_get c (sr_sess s)) as [ct|] eqn:SC; [|discriminate].
+  destruct (nm_get name (ss_pxys ct)) as [o|] eqn:PC; [|injection H as <-; assumption].
+  injection H as <-.
+  assert (L0 : live s name o) by (exists c, ct; auto).
+  pose proof (wf_obj _ _ W _ _ L0) as OK. pose proof OK as [ON _].
+  destruct (px_close_spec s name o OK) as [R [[S1 [S2 [S3 S4]]] [T U]]].
+  eapply (wf_close_core A s c ct name o); try eassumption; unsr.
+  - rewrite S2. apply (wf_nogrp _ _ W).
+  - rewrite S3, ON. reflexivity.
+  - rewrite S4. reflexivity.
+Qed.
+
+(* ---------- changes of the session table that keep every proxy table ---------- *)
+Lemma wf_change_sess : forall A s sess',
+  WF A s ->
+  (forall c ct', ss_get c sess' = Some ct' -> ss_pxys ct' = [] \/ exists ct, ss_get c (sr_sess s) = Some ct /\ ss_pxys ct' = ss_pxys ct) ->
+  (forall c ct, ss_get c (sr_sess s) = Some ct -> ss_pxys ct <> [] -> exists ct', ss_get c sess' = Some ct' /\ ss_pxys ct' = ss_pxys ct) ->
+  WF A (set_sess sess' s).
+Proof.
+  intros A s sess' W F B.
+  assert (LL : forall n o, live (set_sess sess' s) n o <-> live s n o).
+  { intros n o. unfold live. unsr. split.
+    - intros [c [ct' [S P]]]. destruct (F _ _ S) as [E|[ct [S0 E]]]; [rewrite E in P; discriminate|].
+      exists c, ct. rewrite <- E. auto.
+    - intros [c [ct [S P]]]. destruct (B _ _ S) as [ct' [S' E]]; [intros E; rewrite E in P; discriminate|].
+      exists c, ct'. rewrite E. auto. }
+  constructor; unsr.
+  - apply (wf_nogrp _ _ W).
+  - apply (wf_tcp _ _ W).
+  - apply (wf_udp _ _ W).
+  - apply (wf_keys _ _ W).
+  - intros k ow H. destruct (wf_held _ _ W _ _ H) as [n [o [E [L I]]]]. exists n, o. rewrite LL. auto.
+  - intros n o k L I. apply LL in L. apply (wf_pres _ _ W _ _ _ L I).
+  - intros n o L. apply LL in L. apply (wf_obj _ _ W _ _ L).
+  - intros c ct' n o S P. destruct (F _ _ S) as [E|[ct [S0 E]]]; [rewrite E in P; discriminate|].
+    rewrite E in P. apply (wf_n1 _ _ W _ _ _ _ S0 P).
+  - intros n c H. destruct (wf_n2 _ _ W _ _ H) as [ct [o [S P]]].
+    destruct (B _ _ S) as [ct' [S' E]]; [intros E; rewrite E in P; discriminate|].
+    exists ct', o. rewrite E. auto.
+  - intros c ct' S. destruct (F _ _ S) as [E|[ct [S0 E]]]; [rewrite E; constructor|].
+    rewrite E. apply (wf_pk _ _ W _ _ S0).
+  - intros proto p n Hp U. apply (wf_ptag _ _ W proto p n Hp). unfold get_pm in *. destruct (proto =? 0); exact U.
+  - apply (wf_squat _ _ W).
+Qed.
+
+Lemma wf_set_one : forall A s c ct ct', WF A s -> ss_get c (sr_sess s) = Some ct -> ss_pxys ct' = ss_pxys ct ->
+  WF A (set_sess (ss_set c ct' (sr_sess s)) s).
+Proof.
+  intros A s c ct ct' W S E. apply wf_change_sess; [assumption| |].
+  - intros c0 ct0 H. destruct (Z.eq_dec c0 c) as [->|N].
+    + rewrite ss_get_set_eq in H. injection H as <-. right. exists ct. auto.
+    + rewrite ss_get_set_neq in H by assumption. right. exists ct0. auto.
+  - intros c0 ct0 H _. destruct (Z.eq_dec c0 c) as [->|N].
+    + exists ct'. rewrite ss_get_set_eq. split; [reflexivity|]. congruence.
+    + exists ct0. rewrite ss_get_set_neq by assumption. auto.
+Qed.
+
+Lemma wf_login : forall A s c ct', WF A s -> ss_get c (sr_sess s) = None -> ss_pxys ct' = [] ->
+  WF A (set_sess (ss_set c ct' (sr_sess s)) s).
+Proof.
+  intros A s c ct' W S E. apply wf_change_sess; [assumption| |].
+  - intros c0 ct0 H. destruct (Z.eq_dec c0 c) as [->|N].
+    + rewrite ss_get_set_eq in H. injection H as <-. left. assumption.
+    + rewrite ss_get_set_neq in H by assumption. right. exists ct0. auto.
+  - intros c0 ct0 H _. destruct (Z.eq_dec c0 c) as [->|N]; [congruence|].
+    exists ct0. rewrite ss_get_set_neq by assumption. auto.
+Qed.
+
+Lemma wf_drop_empty : forall A s c ct, WF A s -> ss_get c (sr_sess s) = Some ct -> ss_pxys ct = [] ->
+  WF A (set_sess (ss_del c (sr_sess s)) s).
+Proof.
+  intros A s c ct W S E. apply wf_change_sess; [assumption| |].
+  - intros c0 ct0 H. destruct (Z.eq_dec c0 c) as [->|N].
+    + unfold ss_get, ss_del in H. rewrite (al_get_del_eq Z.eqb_spec) in H. discriminate.
+    + unfold ss_get, ss_del in H. rewrite (al_get_del_neq Z.eqb_spec) in H by assumption. right. exists ct0. auto.
+  - intros c0 ct0 H Hne. destruct (Z.eq_dec c0 c) as [->|N]; [congruence|].
+    exists ct0. unfold ss_get, ss_del. rewrite (al_get_del_neq Z.eqb_spec) by assumption. auto.
+Qed.
+
+(* ---------- the port managers may change up to pm_eqv ---------- *)
+Lemma wf_pm_eqv : forall A s t u, WF A s -> PInv A t -> PInv A u ->
+  pm_used t = pm_used (sr_tcp s) -> pm_used u = pm_used (sr_udp s) ->
+  WF A (set_udp u (set_tcp t s)).
+Proof.
+  intros A s t u W Pt Pu Et Eu.
+  assert (LL : forall n o, live (set_udp u (set_tcp t s)) n o <-> live s n o) by (intros; unfold live; unsr; tauto).
+  constructor; unsr.
+  - apply (wf_nogrp _ _ W).
+  - assumption.
+  - assumption.
+  - apply (wf_keys _ _ W).
+  - intros k ow H. destruct (wf_held _ _ W _ _ H) as [n [o [E [L I]]]]. exists n, o. rewrite LL. auto.
+  - intros n o k L I. apply LL in L. apply (wf_pres _ _ W _ _ _ L I).
+  - intros n o L. apply LL in L. apply (wf_obj _ _ W _ _ L).
+  - apply (wf_n1 _ _ W).
+  - apply (wf_n2 _ _ W).
+  - apply (wf_pk _ _ W).
+  - intros proto p n Hp U. apply (wf_ptag _ _ W proto p n Hp). unfold get_pm in *. cbn in U.
+    destruct (proto =? 0); [rewrite <- Et|rewrite <- Eu]; exact U.
+  - apply (wf_squat _ _ W).
+Qed.
+
+(* ---------- a successful registration ---------- *)
+Lemma wf_install_core : forall A s c ct n o u s',
+  WF A s -> ss_get c (sr_sess s) = Some ct -> nm_get n (sr_names s) = None ->
+  obj_ok n o -> NoDup (po_slots o) -> (forall k, In k (po_slots o) -> rget_ k (sr_res s) = None) ->
+  sr_grp s' = [] -> PInv A (sr_tcp s') -> PInv A (sr_udp s') -> sr_squat s' = sr_squat s ->
+  sr_res s' = claim n (rev (po_slots o)) ++ sr_res s ->
+  sr_names s' = nm_set n c (sr_names s) ->
+  sr_sess s' = ss_set c (sess_with ct (nm_set n o (ss_pxys ct)) u) (sr_sess s) ->
+  (forall proto p n', (proto = 0 \/ proto = 1) -> uget p (pm_used (get_pm proto s')) = Some n' ->
+     uget p (pm_used (get_pm proto s)) = Some n' \/ (n' = n /\ In (SSock proto p) (po_slots o))) ->
+  (forall proto p, In (proto, p) (sr_squat s) -> ~ In (SSock proto p) (po_slots o)) ->
+  WF A s'.
+Proof.
+  intros A s c ct n o u s' W SC NN OK ND AB Eg Pt Pu Eq Er En Es PT SQ.
+  assert (NL : forall o', ~ live s n o').
+  { intros o' [c' [ct' [S' P']]]. pose proof (wf_n1 _ _ W _ _ _ _ S' P'). congruence. }
+  assert (LL : forall n' o', live s' n' o' <-> (n' = n /\ o' = o) \/ (n' <> n /\ live s n' o')).
+  { intros n' o'. unfold live. rewrite Es. split.
+    - intros [c' [ct' [S' P']]]. destruct (Z.eq_dec c' c) as [->|Nc].
+      + rewrite ss_get_set_eq in S'. injection S' as <-. cbn [ss_pxys sess_with] in P'.
+        destruct (String.eqb_spec n' n) as [->|Nn].
+        * rewrite nm_get_set_eq in P'. left. split; congruence.
+        * rewrite nm_get_set_neq in P' by assumption. right. split; [assumption|exists c, ct; auto].
+      + rewrite ss_get_set_neq in S' by assumption. right. split; [|exists c', ct'; auto].
+        intros ->. apply (NL o'). exists c', ct'. auto.
+    - intros [[-> ->]|[Nn [c' [ct' [S' P']]]]].
+      + exists c. eexists. rewrite ss_get_set_eq. split; [reflexivity|]. cbn [ss_pxys sess_with]. apply nm_get_set_eq.
+      + destruct (Z.eq_dec c' c) as [->|Nc].
+        * assert (ct' = ct) by congruence. subst ct'. exists c. eexists. rewrite ss_get_set_eq. split; [reflexivity|].
+          cbn [ss_pxys sess_with]. rewrite nm_get_set_neq by assumption. assumption.
+        * exists c', ct'. rewrite ss_get_set_neq by assumption. auto. }
+  assert (NI : forall k, rget_ k (sr_res s) <> None -> ~ In k (rev (po_slots o))).
+  { intros k H I. apply H. apply AB. apply in_rev. assumption. }
+  constructor.
+  - assumption.
+  - assumption.
+  - assumption.
+  - rewrite Er. apply claim_nodup; [apply NoDup_rev; assumption| |apply (wf_keys _ _ W)].
+    intros k Hk. apply AB. apply in_rev. assumption.
+  - intros k ow H. rewrite Er in H. apply in_app_iff in H. destruct H as [H|H].
+    + apply in_claim in H. destruct H as [-> H]. exists n, o. split; [reflexivity|]. split; [apply LL; auto|apply in_rev; assumption].
+    + destruct (wf_held _ _ W _ _ H) as [n' [o' [E [L I]]]]. exists n', o'. split; [assumption|]. split; [|assumption].
+      apply LL. right. split; [|assumption]. intros ->. apply (NL _ L).
+  - intros n' o' k L I. apply LL in L. rewrite Er. destruct L as [[-> ->]|[Nn L]].
+    + apply res_get_app_claim_in. apply -> in_rev. assumption.
+    + pose proof (wf_pres _ _ W _ _ _ L I) as R. rewrite res_get_app_claim_notin; [assumption|].
+      apply NI. rewrite R. discriminate.
+  - intros n' o' L. apply LL in L. destruct L as [[-> ->]|[Nn L]]; [assumption|apply (wf_obj _ _ W _ _ L)].
+  - intros c' ct' n' o' S' P'. rewrite En.
+    assert (L : live s' n' o') by (exists c', ct'; auto). rewrite Es in S'.
+    destruct (Z.eq_dec c' c) as [->|Nc].
+    + rewrite ss_get_set_eq in S'. injection S' as <-. cbn [ss_pxys sess_with] in P'.
+      destruct (String.eqb_spec n' n) as [->|Nn]; [apply nm_get_set_eq|].
+      rewrite nm_get_set_neq in P' by assumption. rewrite nm_get_set_neq by assumption. apply (wf_n1 _ _ W _ _ _ _ SC P').
+    + rewrite ss_get_set_neq in S' by assumption.
+      assert (n' <> n). { intros ->. apply (NL o'). exists c', ct'. auto. }
+      rewrite nm_get_set_neq by assumption. apply (wf_n1 _ _ W _ _ _ _ S' P').
+  - intros n' c' H. rewrite En in H. rewrite Es. destruct (String.eqb_spec n' n) as [->|Nn].
+    + rewrite nm_get_set_eq in H. injection H as <-. eexists. exists o. rewrite ss_get_set_eq. split; [reflexivity|].
+      cbn [ss_pxys sess_with]. apply nm_get_set_eq.
+    + rewrite nm_get_set_neq in H by assumption. destruct (wf_n2 _ _ W _ _ H) as [ct' [o' [S' P']]].
+      destruct (Z.eq_dec c' c) as [->|Nc].
+      * assert (ct' = ct) by congruence. subst ct'. eexists. exists o'. rewrite ss_get_set_eq. split; [reflexivity|].
+        cbn [ss_pxys sess_with]. rewrite nm_get_set_neq by assumption. assumption.
+      * exists ct', o'. rewrite ss_get_set_neq by assumption. auto.
+  - intros c' ct' S'. rewrite Es in S'. destruct (Z.eq_dec c' c) as [->|Nc].
+    + rewrite ss_get_set_eq in S'. injection S' as <-. cbn [ss_pxys sess_with]. unfold nm_set, al_set. simpl. constructor.
+      * intros I. apply (al_get_none_notin String.eqb_spec) in I; [assumption|]. apply (al_get_del_eq String.eqb_spec).
+      * apply (al_del_nodup String.eqb_spec). apply (wf_pk _ _ W _ _ SC).
+    + rewrite ss_get_set_neq in S' by assumption. apply (wf_pk _ _ W _ _ S').
+  - intros proto p n' Hp U. rewrite Er. destruct (PT _ _ _ Hp U) as [U0|[-> I]].
+    + pose proof (wf_ptag _ _ W _ _ _ Hp U0) as R. rewrite res_get_app_claim_notin; [assumption|].
+      apply NI. rewrite R. discriminate.
+    + apply res_get_app_claim_in. apply -> in_rev. assumption.
+  - intros proto p H. rewrite Eq in H. rewrite Er. rewrite res_get_app_claim_notin; [apply (wf_squat _ _ W _ _ H)|].
+    intros I. apply (SQ _ _ H). apply in_rev. assumption.
+Qed.
+
+Lemma sr_ext : forall a b : sr,
+  sr_tcp a = sr_tcp b -> sr_udp a = sr_udp b -> sr_squat a = sr_squat b -> sr_res a = sr_res b ->
+  sr_grp a = sr_grp b -> sr_names a = sr_names b -> sr_sess a = sr_sess b -> a = b.
+Proof. intros [] []; cbn; intros; subst; reflexivity. Qed.
+
+Lemma wf_same_core : forall A s s1, WF A s -> same_but_res_pm s s1 -> sr_res s1 = sr_res s ->
+  PInv A (sr_tcp s1) -> PInv A (sr_udp s1) -> pm_used (sr_tcp s1) = pm_used (sr_tcp s) -> pm_used (sr_udp s1) = pm_used (sr_udp s) ->
+  WF A s1.
+Proof.
+  intros A s s1 W [S1 [S2 [S3 S4]]] R Pt Pu Et Eu.
+  assert (E : s1 = set_udp (sr_udp s1) (set_tcp (sr_tcp s1) s)) by (apply sr_ext; unsr; auto).
+  rewrite E. apply wf_pm_eqv; assumption.
+Qed.
+
+Definition group_free_req (q : req) : Prop := q_group q = ""%string.
+
+Lemma y_register_wf : forall A maxp s c q s' r,
+  WF A s -> ~ In 0 A -> group_free_req q -> y_register maxp s c q = Some (s', r) -> WF A s'.
+Proof.
+  intros A maxp s c q s' r W H0 G H. unfold y_register in H.
+  destruct (ss_get c (sr_sess s)) as [ct|] eqn:SC; [|discriminate].
+  destruct ((0 <? maxp) && (maxp <? ss_used ct + weight (q_type q))); [injection H as <- <-; assumption|].
+  destruct (nm_get (q_name q) (sr_names s)) as [c0|] eqn:NN.
+  { injection H as <- <-. apply (wf_set_one A _ c ct); [assumption|exact SC|reflexivity]. }
+  destruct (px_run s q) as [[s1 [o|e]]|] eqn:R; [| |discriminate].
+  - destruct (px_run_spec A s q s1 _ G (wf_tcp _ _ W) (wf_udp _ _ W) H0 R) as [[S1 [S2 [S3 S4]]] [Pt [Pu [OK [OT [ND [AB [ER [PE _]]]]]]]]].
+    destruct (q_addok q).
+    + injection H as <- <-.
+      pose proof OK as [ON [OG [OW SK]]].
+      eapply (wf_install_core A s c ct (q_name q) o); try eassumption; unsr; try assumption.
+      * rewrite S2. apply (wf_nogrp _ _ W).
+      * rewrite S3. reflexivity.
+      * rewrite S4. reflexivity.
+      * intros proto p n' Hp U. unfold pm_effect, slots_kind in *. unfold get_pm in *.
+        destruct (po_type o) eqn:T; destruct Hp as [-> | ->]; cbn [Z.eqb] in *;
+          try (destruct PE as [E1 E2]; rewrite ?E1, ?E2 in U; left; exact U);
+          try (destruct PE as [E1 [E2 [E3 E4]]]; rewrite ?E1, ?E3 in U; try (left; exact U));
+          cbn [pm_used pm_take] in U;
+          (destruct (Z.eq_dec p (po_real o)) as [->|Np];
+            [rewrite uget_uset_eq in U; injection U as <-; right; split; [reflexivity|rewrite SK; simpl; auto]
+            |rewrite uget_uset_neq in U by assumption; left; exact U]).
+      * intros proto p Hq I. unfold pm_effect, slots_kind in *.
+        destruct (po_type o) eqn:T;
+          try (destruct (SK _ I) as [rr E]; discriminate E);
+          try (rewrite SK in I; destruct I as [E|[]]; try discriminate E; injection E as <- <-;
+               destruct PE as [E1 [E2 [E3 E4]]]; contradiction).
+    + injection H as <- <-.
+      destruct (px_close_spec s1 (q_name q) o OK) as [CR [[C1 [C2 [C3 C4]]] [CT CU]]].
+      assert (W2 : WF A (px_close s1 o)).
+      { apply (wf_same_core A s); [assumption| | | | | |].
+        - unfold same_but_res_pm. csplit; congruence.
+        - rewrite CR, ER. apply res_del_all_claim.
+          + intros k Hk. apply AB. apply in_rev. assumption.
+          + apply NoDup_rev. assumption.
+          + intros k Hk. left. apply -> in_rev. assumption.
+          + intros k Hk. apply in_rev. assumption.
+        - rewrite CT. destruct (is_tcp (po_type o)); [apply pinv_release|]; assumption.
+        - rewrite CU. destruct (is_udp (po_type o)); [apply pinv_release|]; assumption.
+        - rewrite CT. unfold pm_effect in PE. destruct (po_type o); cbn [is_tcp];
+            try (destruct PE as [E1 E2]; rewrite E1; reflexivity);
+            try (destruct PE as [E1 [E2 [E3 E4]]]; rewrite ?E3; try reflexivity).
+          rewrite E1. symmetry. apply (take_release_eqv A); [apply (wf_tcp _ _ W)|assumption].
+        - rewrite CU. unfold pm_effect in PE. destruct (po_type o); cbn [is_udp];
+            try (destruct PE as [E1 E2]; rewrite E2; reflexivity);
+            try (destruct PE as [E1 [E2 [E3 E4]]]; rewrite ?E3; try reflexivity).
+          rewrite E1. symmetry. apply (take_release_eqv A); [apply (wf_udp _ _ W)|assumption]. }
+      apply (wf_set_one A _ c ct); [exact W2|rewrite C4, S4; exact SC|reflexivity].
+  - destruct (px_run_spec A s q s1 _ G (wf_tcp _ _ W) (wf_udp _ _ W) H0 R) as [SS [Pt [Pu [ER [[Et _] [Eu _]]]]]].
+    injection H as <- <-.
+    assert (W1 : WF A s1) by (apply (wf_same_core A s); auto).
+    destruct SS as [S1 [S2 [S3 S4]]].
+    apply (wf_set_one A _ c ct); [exact W1|rewrite S4; exact SC|reflexivity].
+Qed.
+
+(* ---------- session teardown ---------- *)
+Definition agree (a b : sr) : Prop :=
+  sr_tcp a = sr_tcp b /\ sr_udp a = sr_udp b /\ sr_squat a = sr_squat b /\ sr_res a = sr_res b /\
+  sr_grp a = sr_grp b /\ sr_names a = sr_names b.
+
+Lemma al_del_idem_Z : forall V c (l : list (Z * V)), ss_del c (ss_del c l) = ss_del c l.
+Proof. intros. apply (al_del_absent Z.eqb_spec). apply (al_get_del_eq Z.eqb_spec). Qed.
+
+Lemma close_all_spec : forall A c l sa sb ct,
+  WF A sb -> agree sa sb -> ss_get c (sr_sess sb) = Some ct -> ss_pxys ct = l ->
+  exists s2 ct2, WF A s2 /\ ss_get c (sr_sess s2) = Some ct2 /\ ss_pxys ct2 = [] /\ ss_pool ct2 = ss_pool ct /\
+                 agree (close_all sa l) s2 /\ ss_del c (sr_sess s2) = ss_del c (sr_sess sb) /\
+                 sr_sess (close_all sa l) = sr_sess sa.
+Proof.
+  intros A c l. induction l as [|[n o] t IH]; intros sa sb ct W AG SC PL.
+  - exists sb, ct. cbn. csplit; auto.
+  - cbn [close_all].
+    assert (PC : nm_get n (ss_pxys ct) = Some o).
+    { rewrite PL. unfold nm_get. simpl. rewrite String.eqb_refl. reflexivity. }
+    assert (L0 : live sb n o) by (exists c, ct; auto).
+    pose proof (wf_obj _ _ W _ _ L0) as OK. pose proof OK as [ON _].
+    destruct (px_close_spec sa n o OK) as [RA [[A1 [A2 [A3 A4]]] [TA UA]]].
+    destruct (px_close_spec sb n o OK) as [RB [[B1 [B2 [B3 B4]]] [TB UB]]].
+    destruct AG as [G1 [G2 [G3 [G4 [G5 G6]]]]].
+    destruct (y_close 0 sb c n) as [sb'|] eqn:YC; [|unfold y_close in YC; rewrite SC, PC in YC; discriminate].
+    pose proof (y_close_wf _ _ _ _ _ _ W YC) as W'.
+    unfold y_close in YC. rewrite SC, PC in YC. injection YC as YC.
+    assert (ND : NoDup (map fst (ss_pxys ct))) by (apply (wf_pk _ _ W _ _ SC)).
+    assert (DT : nm_del n (ss_pxys ct) = t).
+    { rewrite PL in *. unfold nm_del. simpl. rewrite String.eqb_refl. apply (al_del_absent String.eqb_spec).
+      apply (al_notin_get_none String.eqb_spec). simpl in ND. inversion ND; assumption. }
+    rewrite DT in YC.
+    set (ct' := sess_with ct t (if 0 <? 0 then ss_used ct - po_w o else ss_used ct)) in *.
+    assert (SC' : ss_get c (sr_sess sb') = Some ct') by (rewrite <- YC; unsr; apply ss_get_set_eq).
+    assert (AG' : agree (set_names (nm_del (po_name o) (sr_names (px_close sa o))) (px_close sa o)) sb').
+    { rewrite <- YC. unfold agree. unsr. rewrite TA, TB, UA, UB, A1, B1, RA, RB, A2, B2, A3, B3, G1, G2, G3, G4, G5, G6. csplit; reflexivity. }
+    destruct (IH _ sb' ct' W' AG' SC' eq_refl) as [s2 [ct2 [W2 [S2 [P2 [PO [AG2 [D2 SS]]]]]]]].
+    exists s2, ct2. csplit; auto.
+    + rewrite D2. rewrite <- YC. unsr. rewrite B4. unfold ss_set, al_set. simpl. rewrite Z.eqb_refl. apply al_del_idem_Z.
+    + rewrite SS. unsr. exact A4.
+Qed.
+
+Lemma y_end_wf : forall A s c s' k, WF A s -> y_end s c = Some (s', k) -> WF A s'.
+Proof.
+  intros A s c s' k W H. unfold y_end in H.
+  destruct (ss_get c (sr_sess s)) as [ct|] eqn:SC; [|discriminate]. injection H as <- <-.
+  assert (AG : agree s s) by (unfold agree; csplit; reflexivity).
+  destruct (close_all_spec A c (ss_pxys ct) s s ct W AG SC eq_refl) as [s2 [ct2 [W2 [S2 [P2 [PO [[G1 [G2 [G3 [G4 [G5 G6]]]]] [D2 SS]]]]]]]].
+  assert (E : set_sess (ss_del c (sr_sess (close_all s (ss_pxys ct)))) (close_all s (ss_pxys ct))
+              = set_sess (ss_del c (sr_sess s2)) s2).
+  { apply sr_ext; unsr; auto. rewrite SS, D2. reflexivity. }
+  rewrite E. apply (wf_drop_empty A s2 c ct2); assumption.
+Qed.
+
+(* ---------- every history ---------- *)
+Definition group_free_op (o : sop) : Prop :=
+  match o with SNewProxy _ q => group_free_req q | _ => True end.
+
+Lemma sr_step_wf : forall A maxp maxpool s o s' out,
+  WF A s -> ~ In 0 A -> group_free_op o -> sr_step maxp maxpool s o = Some (s', out) -> WF A s'.
+Proof.
+  intros A maxp maxpool s o s' out W H0 G H. destruct o as [c pool|c q|c n|c why|c|proto port|proto port]; cbn [sr_step] in H.
+  - destruct (ss_get c (sr_sess s)) eqn:SC; [discriminate|]. injection H as <- <-. apply wf_login; auto.
+  - destruct (y_register maxp s c q) as [[s1 r]|] eqn:R; [|discriminate]. injection H as <- <-.
+    eapply y_register_wf; eauto.
+  - destruct (y_close maxp s c n) as [s1|] eqn:R; [|discriminate]. injection H as <- <-. eapply y_close_wf; eauto.
+  - destruct (y_end s c) as [[s1 k]|] eqn:R; [|discriminate]. injection H as <- <-. eapply y_end_wf; eauto.
+  - destruct (ss_get c (sr_sess s)) as [ct|] eqn:SC; [|discriminate].
+    destruct (ss_pool ct <? ss_cap ct); injection H as <- <-; [|assumption].
+    apply (wf_set_one A s c ct); auto.
+  - destruct ((1 <=? port) && sr_probe s proto port) eqn:E; [|discriminate]. injection H as <- <-.
+    apply andb_prop in E. destruct E as [_ E].
+    constructor; unsr; try apply W.
+    intros p0 p1 [E1|I]; [injection E1 as <- <-; apply (probe_free_sock _ _ _ E)|apply (wf_squat _ _ W _ _ I)].
+  - injection H as <- <-.
+    constructor; unsr; try apply W.
+    intros p0 p1 I. apply filter_In in I. apply (wf_squat _ _ W _ _ (proj1 I)).
+Qed.
+
+Lemma sr_run_wf : forall A maxp maxpool ops s s',
+  WF A s -> ~ In 0 A -> Forall group_free_op ops -> sr_run maxp maxpool ops s = Some s' -> WF A s'.
+Proof.
+  intros A maxp maxpool ops. induction ops as [|o t IH]; intros s s' W H0 G H; simpl in H.
+  - injection H as <-. assumption.
+  - destruct (sr_step maxp maxpool s o) as [[s1 out]|] eqn:E; [|discriminate].
+    inversion G; subst. eapply IH; [|assumption|assumption|exact H]. eapply sr_step_wf; eauto.
+Qed.
+
+Theorem reachable_wf : forall ranges maxp maxpool ops s,
+  Forall group_free_op ops -> sr_run maxp maxpool ops (sr_new ranges) = Some s -> WF (pm_allowed ranges) s.
+Proof.
+  intros. eapply sr_run_wf; [apply wf_new|apply allowed_no0|eassumption|eassumption].
+Qed.
+
+(* ====================== consequences ====================== *)
+
+Lemma filter_nil : forall (T : Type) (f : T -> bool) l, (forall x, In x l -> f x = false) -> filter f l = [].
+Proof.
+  induction l as [|a l IH]; simpl; intros H; [reflexivity|].
+  rewrite (H a (or_introl eq_refl)). apply IH. intros x Hx. apply H. auto.
+Qed.
+
+(* a name that is not registered holds nothing *)
+Lemma fp_empty_of_unregistered : forall A s n, WF A s -> nm_get n (sr_names s) = None -> fp s n = [].
+Proof.
+  intros A s n W NN.
+  assert (NL : forall o, ~ live s n o).
+  { intros o [c [ct [S P]]]. pose proof (wf_n1 _ _ W _ _ _ _ S P). congruence. }
+  unfold fp.
+  assert (E1 : fp_res s n = []).
+  { unfold fp_res. rewrite filter_nil; [reflexivity|]. intros [k ow] H. simpl.
+    destruct (wf_held _ _ W _ _ H) as [n' [o [-> [L _]]]]. simpl.
+    destruct (String.eqb_spec n n') as [->|]; [exfalso; apply (NL _ L)|reflexivity]. }
+  assert (E2 : fp_grp s n = []) by (unfold fp_grp; rewrite (wf_nogrp _ _ W); reflexivity).
+  assert (E3 : forall proto, (proto = 0 \/ proto = 1) -> fp_ports s proto n = []).
+  { intros proto Hp. unfold fp_ports. rewrite filter_nil; [reflexivity|]. intros [p m] H. simpl.
+    destruct (uget p (pm_used (get_pm proto s))) as [m'|] eqn:U; [|reflexivity].
+    destruct (String.eqb_spec n m') as [<-|]; [|reflexivity]. exfalso.
+    destruct (wf_port_holder _ _ _ _ _ W Hp U) as [o [L I]]. apply (NL _ L). }
+  assert (E4 : fp_name s n = []) by (unfold fp_name; rewrite NN; reflexivity).
+  assert (E5 : fp_owned s n = []).
+  { unfold fp_owned. assert (G : forall l, flat_map (fun e : Z * sess => match ss_get (fst e) (sr_sess s) with
+                     | Some ct => match nm_get n (ss_pxys ct) with Some _ => [AOwned (fst e)] | None => [] end
+                     | None => [] end) l = []).
+    { induction l as [|[c ct] r IH]; simpl; [reflexivity|]. rewrite IH.
+      destruct (ss_get c (sr_sess s)) as [ct1|] eqn:S1; [|reflexivity].
+      destruct (nm_get n (ss_pxys ct1)) as [o1|] eqn:P1; [|reflexivity].
+      exfalso. apply (NL o1). exists c, ct1. auto. }
+    apply G. }
+  rewrite E1, E2, (E3 0), (E3 1), E4, E5; auto.
 Qed.
